@@ -228,3 +228,31 @@ macro_rules! exp_golomb_harness {
 }
 exp_golomb_harness!(exp_golomb_u8, u8, 20);
 exp_golomb_harness!(exp_golomb_u16, u16, 36);
+
+/// C16: interleaved reads and writes: after any n <= 10 writes, k <= 2 reads and one more write,
+/// the export is exactly the packing of b[0..n-k] ++ [y] (no stale bits survive a pop) and the
+/// pushed bit reads back.
+#[cfg_attr(kani, kani::proof)]
+#[cfg_attr(kani, kani::unwind(13))]
+pub fn stack_pop_then_push() {
+    let b0 = any_arr::<bool, { MAXB + 2 }>();
+    let n: usize = any(); assume(n <= MAXB);
+    let k: usize = any(); assume(k <= 2 && k <= n);
+    let mut s = filled_stack(&b0, n);
+    let mut i = 0; while i < k { assert!(s.read_bit().unwrap() == Some(b0[n - 1 - i]), "C16: stack must return bits in reverse order"); i += 1; }
+    let y: bool = any();
+    if s.write_bit(y).is_err() { return; }
+    assert!(s.len() == n - k + 1, "C16/C18: len after pops and a push");
+    let mut b = b0; b[n - k] = y;
+    {
+        let mut t = filled_stack(&b0, n);
+        let mut i = 0; while i < k { let _ = t.read_bit(); i += 1; }
+        if t.write_bit(y).is_err() { return; }
+        assert!(t.read_bit().unwrap() == Some(y), "C16: a bit pushed after pops must read back unchanged");
+    }
+    let words = match s.into_compressed() { Ok(w) => w, Err(_) => return };
+    let (spec, nw) = spec_words(&b, n - k + 1, true);
+    assert!(words.n == nw, "C16: export after pops and a push has the wrong number of words");
+    let mut i = 0; while i < nw { assert!(words.buf[i] == spec[i], "C16: export after pops and a push differs from the packing of the remaining bits (stale bits)"); i += 1; }
+    cover!(k == 2 && n == 9, "pops cross the word boundary");
+}
